@@ -516,9 +516,11 @@ def run(ctx):
     # ---- K: the engine
     levels = list(G.ALL_LEVELS)
     all_triples = [(s, t, k) for s in G.TYPES for t in G.TYPES for k in G.pool_for(s, t, ctx.tier)]
-    n_model = oracle.eval_model(all_triples)
+    corpus = corpus_cases()
+    n_model = oracle.eval_model(all_triples + [(x["src"], x["dst"], x["vals"][0]) for x in corpus])
     ctx.log(f"model: cast_val evaluated inside Coq on {n_model} (pair, value) cases of the {len(MODELLED)} modelled pairs")
-    cases = corpus_cases() + plan(oracle, ctx.tier, levels)
+    cases = corpus + plan(oracle, ctx.tier, levels)
+    ctx.cov["corpus_cases_run_first"] = len(corpus)
     ctx.log(f"K: {len(cases)} engine cases planned ({sum(1 for x in cases if x.get('mode') == 'semantic')} semantic-only) "
             f"after {time.time() - t0:.0f}s")
     results = G.run_parallel(cases, workers=16)
@@ -651,5 +653,5 @@ def replay(ctx, obj):
         print("input    :", repr(G.POOLD[s][k][0]), "structures:", json.dumps(b["structs"]), "scalar_values:", b["scalar_values"])
         print("expected :", oracle.expect(s, t, k))
         print("observed :", {k_: v_ for k_, v_ in r.items() if k_ != "comps"})
-    print(obj.get("what"))
+    print(obj.get("what") or obj.get("key") or "")
     return 1
